@@ -115,6 +115,14 @@ Theorem C18_commands_neutral_partial : forall th rs, theme_ok th -> Forall recor
 Proof. exact print_neutral. Qed.
 Print Assumptions C18_commands_neutral_partial.
 
+(* "strip removes every SGR sequence" is false of the faithful model: the pattern needs at least one
+   parameter byte, so the parameterless reset ESC [ m is kept and counted as 3 visible characters.
+   Replayed on the implementation this is known finding K18 (`klog tags --values` with a quoted tag
+   value that contains ESC [ m prints that row 3 characters short) *)
+Theorem C18_strip_all_sgr_refuted : exists m, sgr_any m /\ strip m = m /\ vis_len m = 3.
+Proof. exact (ex_intro _ _ strip_parameterless). Qed.
+Print Assumptions C18_strip_all_sgr_refuted.
+
 (* ---- 3. tables ---- *)
 
 (* NewTable + any sequence of CellL / CellR / Skip / Fill with tidy cell texts (any theme's styling, any
